@@ -29,8 +29,15 @@
       awaiters is covered by an in-flight load, `loading` counts the in-flight loads covering an attached chunk; every
       awaiter gets exactly one message when a covering load finishes (ok or error); with no load in flight every
       request has returned;
-  Not proved (checked by the correspondence and the direct oracle only): that a successful request has EVERY slot of
-  its range filled (`request_complete`) — see the note near the end.
+    * `request_complete` — WHOLE-TRACE completeness (SH.Lemmas.TsCacheFill): a request that returned without error
+      has EVERY slot of `[ls, le)` filled, with the cell of its own slot time and cache key (coverage invariant: each
+      index is filled, or in a chunk the request loads itself, or in the range of an awaiter it registered; cached
+      chunk data always has `K` filled slots); hypothesis `GoodOps`: fresh ids and `ReqFits` per request;
+    * `invStarts_is_le`, `boundary_second_opens_chunk` + `decide` witnesses — the batch-to-chunk-starts step of
+      `invalidate` as a model variant (`<=` as in /repo vs. the mutation `<`): a second that is the first second of a
+      chunk opens that chunk.
+  Still not proved: the full "exactly the chunks containing the seconds" statement for `invalidate` (needs sortedness/alignment of bucket chunk
+  lists as a trace invariant); both remain checked by the correspondence and the oracle.
   On a tree without fixes/C23-cache2-trim-wakeups-and-double-remove.diff the three decision-site theorems do not
   build (SH.Gen.C23 then says hardLimit / whenBelow / no guard) — that is the intended alarm; the `example`s
   next to them show the old behaviour violating the property on the states observed on the real code.
@@ -38,6 +45,7 @@
 import SH.Model.TsCache
 import SH.Lemmas.TsCachePlace
 import SH.Lemmas.TsCacheWait
+import SH.Lemmas.TsCacheFill
 import SH.Gen.C23
 namespace SH.Props.C23
 open SH.TsCache
@@ -1264,14 +1272,101 @@ example : ((run (init cfg0) (ops1 ++ [.fin 1 true 1 200000000004])).loaders.map 
       l.data.map (fun x => x.map (·.t))))) =
     [(1, true, false, [some 100, some 101]), (2, true, false, [some 100, none])] := by decide
 
-/-! ## Not proved: a successful request has every slot of its range filled (`request_complete`)
+/-! ## A successful request has every slot of its range filled (SH.Lemmas.TsCacheFill)
 
-  With `placement` (every filled slot is right) and `no_orphan_awaiter` (every message arrives) what is missing is the
-  coverage argument: every index of `[ls, le)` is, at request begin, either copied from a fully filled cached chunk,
-  or covered by an awaiter `[a.ls, a.le)`, or by a chunk the request loads itself, and a successful delivery fills
-  exactly that range.  This needs (i) `chunk.data` always has `K` filled slots, (ii) the loader buffer has
-  `n·K` slots and `le ≤ n·K` (the ceiling in `chunkCount`), (iii) the ranges `[max pos ls, min le (pos+K))` of the
-  visited chunks tile `[ls, le)`.  Not attempted for lack of time; checked by the correspondence (every returned
-  slot is printed) and the oracle `misplaced-rows`, which demands the exact row count of every slot. -/
+  Coverage invariant over whole traces: for a request that has seen no error, every index of `[ls, le)` is filled, or
+  lies in a chunk the request is loading itself, or in the range of an awaiter it registered; cached chunk data always
+  has `K` filled slots; buffers are long enough for what is written into them.  With `no_orphan_awaiter` (a finished
+  request has no load in flight and no awaiter left) every slot of a successful request is filled, and with
+  `placement` it is the right cell.  Hypotheses (`GoodOps`, decidable): request ids are fresh and every requested
+  range fits the buffer `init` allocates (`ReqFits`: `ls + lodSize ≤ chunkCount·K`, a property of `(cfg, from, to)`
+  alone); `request_complete_le` replaces it by `from ≤ to` (`reqFits_of_le`: the ceiling in `chunkCount`). -/
+
+theorem goodOps_fresh (ops : List Op) (s : St) (h : SH.TsCache.Fill.GoodOps s ops) : SH.TsCache.Place.FreshIds s ops := by
+  induction ops generalizing s with
+  | nil => trivial
+  | cons op ops ih => exact ⟨h.1.1, ih _ h.2⟩
+
+/-- **request_complete** (C23: "returns, for each slot of the requested range, exactly the rows the storage produced
+    for that slot's time"): after any sequence of good operations, every slot `i ∈ [ls, le)` of a request that returned
+    without error is filled, and holds the cell of its own slot time and of the request's cache key. -/
+theorem request_complete (cfg : Cfg) (wf : SH.TsCache.Place.WF cfg) (ops : List Op)
+    (hg : SH.TsCache.Fill.GoodOps (init cfg) ops) :
+    ∀ l ∈ (run (init cfg) ops).loaders, l.finished = true → l.gotErr = false →
+      ∀ i, l.ls ≤ i → i < l.le →
+        ∃ c, l.data[i]? = some (some c) ∧ c.t = l.timeStart / nsec + (i : Int) * cfg.step ∧ c.key = l.key := by
+  intro l hl hf he i h1 h2
+  obtain ⟨c, hc⟩ := SH.TsCache.Fill.complete_all cfg wf ops hg l hl hf he i h1 h2
+  exact ⟨c, hc, placement cfg wf ops (goodOps_fresh ops _ hg) l hl i c hc⟩
+
+/-- the same with the hypotheses one would state: fresh ids, `from ≤ to` for every request, a shard with positive
+    step and chunk size (that the range then fits the buffer is `SH.TsCache.Fill.reqFits_of_le`) -/
+theorem request_complete_le (cfg : Cfg) (wf : SH.TsCache.Place.WF cfg) (hs : 0 < cfg.step) (hK : 0 < cfg.K) (ops : List Op)
+    (hn : SH.TsCache.Fill.NiceOps (init cfg) ops) :
+    ∀ l ∈ (run (init cfg) ops).loaders, l.finished = true → l.gotErr = false →
+      ∀ i, l.ls ≤ i → i < l.le →
+        ∃ c, l.data[i]? = some (some c) ∧ c.t = l.timeStart / nsec + (i : Int) * cfg.step ∧ c.key = l.key :=
+  request_complete cfg wf ops (SH.TsCache.Fill.nice_good ops (init cfg) wf hs hK hn)
+
+example : SH.TsCache.Fill.NiceOps (init cfg0) ops0 := by decide
+
+/-- non-vacuity: both example traces are good, and their finished requests have their whole range filled -/
+example : SH.TsCache.Fill.GoodOps (init cfg0) ops0 := by decide
+example : SH.TsCache.Fill.GoodOps (init cfg0) (ops1 ++ [.fin 1 true 1 200000000004]) := by decide
+example : ((run (init cfg0) (ops1 ++ [.fin 1 true 1 200000000004])).loaders.map (fun l => (l.id, l.finished, l.gotErr,
+      (slice l.data l.ls l.le).map (fun x => x.map (·.t))))) =
+    [(1, true, false, [some 100, some 101]), (2, true, false, [some 100])] := by decide
+
+/-! ## Invalidation at chunk granularity: a second that is the first second of a chunk
+
+  `cache2.invalidate` turns the sorted batch of seconds into chunk starts; it moves on to the next chunk when
+  `end <= t` (chunks are half-open `[start, end)`).  `InvCmp.lt` is the mutation `end < t` (seeded change C23-r3-1):
+  a second exactly on a chunk boundary that follows a second of the previous chunk is then attributed to the
+  previous chunk and its own chunk is never marked. -/
+
+inductive InvCmp | le | lt
+deriving DecidableEq, Repr
+
+def nextChunk (v : InvCmp) (stop t : Int) : Bool :=
+  match v with
+  | .le => decide (stop ≤ t)
+  | .lt => decide (stop < t)
+
+def invStartsV (v : InvCmp) (cfg : Cfg) : List Int → Option Int → List Int
+  | [], _ => []
+  | t :: ts, none => let st := chunkStartOf cfg (t * nsec); st :: invStartsV v cfg ts (some (st + cfg.dur))
+  | t :: ts, some stop =>
+    if nextChunk v stop (t * nsec) then
+      let st := chunkStartOf cfg (t * nsec); st :: invStartsV v cfg ts (some (st + cfg.dur))
+    else invStartsV v cfg ts (some stop)
+
+/-- the model's `invStarts` is the `<=` variant (what /repo does; the correspondence pins it) -/
+theorem invStarts_is_le (cfg : Cfg) (ts : List Int) (o : Option Int) : invStartsV .le cfg ts o = invStarts cfg ts o := by
+  induction ts generalizing o with
+  | nil => cases o <;> rfl
+  | cons t ts ih =>
+    cases o with
+    | none => simp only [invStartsV, invStarts, ih]
+    | some stop =>
+      simp only [invStartsV, invStarts, nextChunk, decide_eq_true_eq]
+      split <;> simp only [ih]
+
+/-- a second that starts a chunk (`t·nsec = end` of the chunk being processed) opens that chunk -/
+theorem boundary_second_opens_chunk (cfg : Cfg) (t : Int) (ts : List Int) (stop : Int) (h : stop = t * nsec) :
+    chunkStartOf cfg (t * nsec) ∈ invStarts cfg (t :: ts) (some stop) := by
+  simp [invStarts, h]
+
+/-- cfg0: chunks of 2 s. Seconds 101 (chunk [100,102)) and 102 (first second of chunk [102,104)):
+    the code marks both chunks, the mutation only the first -/
+example : invStartsV .le cfg0 [101, 102] none = [100000000000, 102000000000] := by decide
+example : invStartsV .lt cfg0 [101, 102] none = [100000000000] := by decide
+
+/-- on whole states: both chunks cached, invalidate [101, 102], then a request for [102, 104):
+    with the code the chunk is reloaded, under the mutation it would still be marked valid -/
+def opsB : List Op :=
+  [ .get 1 1 0 false 100 104 200000000000, .fin 1 true 1 200000000001, .inv [101, 102] 200000000002 ]
+example : ((run (init cfg0) opsB).chunks.map (fun c => (c.start / nsec, c.invAt))) =
+    [(100, 200000000002), (102, 200000000002)] := by decide
+
 
 end SH.Props.C23
